@@ -360,6 +360,11 @@ func (x *Exec) doBinOp(i *ssa.BinOp) {
 			x.needDecl("strlt", "(declare-fun strlt (Str Str) Bool)")
 		}
 	case "Any":
+		// comparing two interface values panics when both hold the same
+		// uncomparable dynamic type (slice, map)
+		if (i.Op == token.EQL || i.Op == token.NEQ) && at != "ANil" && bt != "ANil" {
+			x.safe("ifacecompare", "uncomparable", not(or(and("((_ is AList) "+at+")", "((_ is AList) "+bt+")"), and("((_ is AMap) "+at+")", "((_ is AMap) "+bt+")"))), i.Pos())
+		}
 		switch i.Op {
 		case token.EQL:
 			r = eq(at, bt)
@@ -472,7 +477,7 @@ func (x *Exec) doIndexAddr(i *ssa.IndexAddr) {
 	bt := x.termOf(base)
 	x.safe("index", "slice", "(and (<= 0 "+idx+") (< "+idx+" (slen "+bt+")))", i.Pos())
 	sv, svs, _ := x.sliceHeap(elem)
-	x.vals[i] = Val{Loc: &Loc{Kind: LElem, SV: sv, Sort: svs, Ref: "(sref " + bt + ")", Idx: "(+ (soff " + bt + ") " + idx + ")", Elem: elem}, KnownLen: -1}
+	x.vals[i] = Val{Loc: &Loc{Kind: LElem, SV: sv, Sort: svs, Ref: "(sref " + bt + ")", Idx: "(ix (soff " + bt + ") " + idx + ")", Elem: elem}, KnownLen: -1}
 }
 
 func (x *Exec) doIndex(i *ssa.Index) {
@@ -488,7 +493,7 @@ func (x *Exec) doIndex(i *ssa.Index) {
 			return
 		}
 		sv, svs, _ := x.sliceHeap(t.Elem())
-		x.bind(i, tv("(select (select "+x.getSV(sv, svs)+" (sref "+base+")) (+ (soff "+base+") "+idx+"))"))
+		x.bind(i, tv("(select (select "+x.getSV(sv, svs)+" (sref "+base+")) (ix (soff "+base+") "+idx+"))"))
 	default:
 		x.markA("index on " + i.X.Type().String())
 		x.bind(i, tv(x.smt.fresh("idx", x.smt.sortOf(i.Type()))))
